@@ -17,8 +17,17 @@ Property clause → theorem
       `C20.import_accepts_full`   no InitGenesis setter can refuse a record
       `C20.validate_keys_match_store_keys`  every duplicate check of a GenesisState.Validate keys the records exactly like the store
                                   (pinned: `validate_keys_pinned`, 6 checks, all in x/liquidity) — no exception on the current tree
+      `C20.export_helpers_copy_ids_faithfully`  every id field of a record an export / import helper constructs field by field is fed
+                                  from the same-named id of the same object (`PoolId` from `pool.Id`, never `.PairId` / `.AppId`);
+                                  `C20.export_helpers_copy_fields_by_name` the same for every selected field; pinned by `copies_pinned`
+                                  (68 copies: lend migration 26, liquidity 22, collector 17, auction 3; 19 of them id fields) — no exception on the current tree
       `C20.counters_exact_full`   every id counter / length key is restored from a stored genesis value
       `C20.fields_used_full`      every genesis field ExportGenesis fills is looked at by InitGenesis
+      `C20.migrate_fresh_id`      registered store migrations (x/lend 2→3, x/rewards 2→3 decode-and-rewrite live records): a loop that
+                                  decodes every record into a fresh struct and re-encodes it keeps every well-formed record;
+                                  `C20.migrate_shared_counterexample` the loop AS WRITTEN in x/lend (one struct declared before the loop, the
+                                  generated Unmarshal does not reset it) does not — finding M1, replayed by TestC20Migrations
+                                  (`migration_keeps:*`, `migration_continuation:*`); `C20.migrate_shared_id_partial` what it does keep
       These are FALSE of the unchanged tree; each is stated at full strength over the table minus the explicit lists
       `knownGaps` (reproduced on the real code by the harness, see notes/C20.md), `suspectedGaps` (visible in the source,
       the writing transition could not be driven in the harness), `historyAllowList`; any NEW gap breaks the proof, and
@@ -30,7 +39,7 @@ Property clause → theorem
 -/
 namespace Comdex.C20
 open Comdex.Genesis
-open Comdex.Gen.Genesis (Module modules)
+open Comdex.Gen.Genesis (Module modules Copy)
 
 /-! ## the round-trip law -/
 
@@ -246,6 +255,7 @@ def knownGaps : List Gap := [
   ⟨"G06", "counter", "vault", "VaultIDPrefix.maxId"⟩,
   ⟨"G06", "counter", "lend", "LendCounterIDPrefix.lastId"⟩,
   ⟨"G06", "counter", "lend", "BorrowCounterIDPrefix.lastId"⟩,
+  ⟨"G06", "counter", "lend", "PoolIDPrefix.lastId"⟩,   -- reproduced in the depth round (a depreciated pool is deleted by the begin blocker); was S02
   ⟨"G06", "counter", "liquidation", "LockedVaultIDKey.count"⟩,
   ⟨"G06", "counter", "auction", "AuctionIDKey.lastId"⟩,
   ⟨"G06", "counter", "auction", "LendAuctionIDKey.lastId"⟩,
@@ -298,8 +308,7 @@ def suspectedGaps : List Gap := [
   -- one-off main-net refund (hard-coded `comdex1…` recipients, not decodable under the test bech32 prefix)
   ⟨"S01", "store", "collector", "RefundCounterStatusPrefix"⟩,
   ⟨"S01", "counter", "collector", "RefundCounterStatusPrefix.notRestored"⟩,
-  -- recomputed from live records whose deletion (pool depreciation, end of a reward period / gauge) was not driven
-  ⟨"S02", "counter", "lend", "PoolIDPrefix.lastId"⟩,
+  -- recomputed from live records whose deletion (end of a reward period / gauge) was not driven
   ⟨"S02", "counter", "rewards", "ExtRewardsLendIDKey.maxId"⟩,
   ⟨"S02", "counter", "rewards", "GaugeIDKey.maxId"⟩,
   -- setters that can refuse a record, where no refusable record could be produced (a negative fee is never stored, the denoms
@@ -353,6 +362,37 @@ theorem validate_keys_pinned : (modules.map fun m => m.validateKeys.length) = [0
       ("ActiveFarmers", ["AppId"], ["Farmer", "AppId", "PoolId"], ["AppId", "PoolId", "Farmer"]) ∈ m.validateKeys ∧
       ("DepositRequests", ["AppId"], ["PoolId", "Id"], ["AppId", "PoolId", "Id"]) ∈ m.validateKeys ∧
       ("Orders", ["AppId"], ["PairId", "Id"], ["AppId", "PairId", "Id"]) ∈ m.validateKeys) := by decide
+
+/-- **Export / import helpers copy ids faithfully.** Every id field of a record that a function on the ExportGenesis or InitGenesis
+path (or in the file of a registered store migrator) constructs field by field (keyed composite literal or `rec.F = …` of a module record type) is fed from the same-named id, or
+from the `Id` of the object the field names (`PoolId` from `pool.Id`, never from `pool.PairId` / `pool.AppId`); an id taken from a
+call is taken from a getter of that very id (`LastPairId` from `GetLastPairID`). No exception on the current tree. -/
+theorem export_helpers_copy_ids_faithfully : idCopyGaps modules = [] := by decide
+
+/-- … and, for fields of ANY kind: a field selected from another record is selected from the field of the same name (or is the
+`Id` of the named object) — a record rebuilt on the way through genesis is rebuilt field for field. No exception on the current tree. -/
+theorem export_helpers_copy_fields_by_name : nameCopyGaps modules = [] := by decide
+
+/-- the field copies found (liquidity: the per-app genesis state and the farmer records rebuilt by
+`GetActiveAndQueuedFarmersForGenesis`; collector and auction: the records the genesis setters rebuild; lend: the records the 2→3
+migration rebuilds) -/
+theorem copies_pinned : (modules.map fun m => m.copies.length) = [0, 0, 26, 17, 0, 0, 3, 0, 0, 22, 0, 0, 0, 0, 0] ∧
+    (modules.map fun m => (m.copies.filter copyIdLike).length) = [0, 0, 4, 6, 0, 0, 2, 0, 0, 7, 0, 0, 0, 0, 0] ∧
+    (∃ m ∈ modules, m.name = "liquidity" ∧
+      (⟨"export", "GetActiveAndQueuedFarmersForGenesis", "QueuedFarmer", "PoolId", ["pool", "id"], "sel", ["pool"], ["pool"], ["id"], "pool.Id"⟩ : Copy) ∈ m.copies ∧
+      (⟨"export", "GetActiveAndQueuedFarmersForGenesis", "ActiveFarmer", "PoolId", ["pool", "id"], "sel", ["pool"], ["pool"], ["id"], "pool.Id"⟩ : Copy) ∈ m.copies ∧
+      (⟨"export", "ExportGenesis", "AppGenesisState", "LastPairId", ["last", "pair", "id"], "call", [], [], ["get", "last", "pair", "id"], "k.GetLastPairID(…)"⟩ : Copy) ∈ m.copies) := by decide
+
+/-- the obligation is not vacuous: the seeded change s90 (`PoolId: pool.PairId` in the queued-farmer record) is a gap, the
+unchanged line is not, and neither is an id taken from a same-named field, a same-named local or its getter -/
+example : copyIdOk ⟨"export", "GetActiveAndQueuedFarmersForGenesis", "QueuedFarmer", "PoolId", ["pool", "id"], "sel", ["pool"], ["pool"], ["pair", "id"], "pool.PairId"⟩ = false ∧
+    copyIdOk ⟨"export", "GetActiveAndQueuedFarmersForGenesis", "QueuedFarmer", "PoolId", ["pool", "id"], "sel", ["pool"], ["pool"], ["app", "id"], "pool.AppId"⟩ = false ∧
+    copyIdOk ⟨"export", "GetActiveAndQueuedFarmersForGenesis", "QueuedFarmer", "PoolId", ["pool", "id"], "sel", ["pair"], ["pair"], ["id"], "pair.Id"⟩ = false ∧
+    copyIdOk ⟨"export", "GetActiveAndQueuedFarmersForGenesis", "QueuedFarmer", "PoolId", ["pool", "id"], "sel", ["pool"], ["pool"], ["id"], "pool.Id"⟩ = true ∧
+    copyIdOk ⟨"export", "f", "R", "AppId", ["app", "id"], "ident", [], [], ["app", "id"], "appID"⟩ = true ∧
+    copyIdOk ⟨"export", "f", "R", "AppId", ["app", "id"], "ident", [], [], ["pool", "id"], "poolID"⟩ = false ∧
+    copyIdOk ⟨"export", "f", "R", "LastPairId", ["last", "pair", "id"], "call", [], [], ["get", "last", "pool", "id"], "k.GetLastPoolID(…)"⟩ = false ∧
+    (∃ m ∈ modules, (m.copies.filter copyIdLike).length > 0) := by decide
 
 /-- ∀ counter c, restoreRule c = exact — over the table minus the named gaps -/
 theorem counters_exact_full : ∀ g ∈ lossyCounters modules, listed "counter" g = true := by decide
@@ -409,5 +449,55 @@ example : Equiv (roundTrip vaultTable (fun _ => [])
     [⟨"VaultKeyPrefix", "01", 1, .raw "a"⟩, ⟨"VaultKeyPrefix", "03", 3, .raw "c"⟩, ⟨"VaultIDPrefix", "", 0, .num 3⟩])
     [⟨"VaultKeyPrefix", "01", 1, .raw "a"⟩, ⟨"VaultKeyPrefix", "03", 3, .raw "c"⟩, ⟨"VaultIDPrefix", "", 0, .num 3⟩] :=
   roundtrip_id _ _ _ (by decide) (by decide) (by decide) (by intro e he; simp at he) (by intro p hp; simp [vaultTable] at hp)
+
+/-! ## registered store migrations (x/lend 2→3, x/rewards 2→3) -/
+
+/-- **A migration loop with a destination variable per record keeps every record.** For every list of well-formed wire records
+(`n` fields, a present field never carries the default value): decoding each into a fresh struct and re-encoding it is the
+identity — a store in the current format is a fixed point. -/
+theorem migrate_fresh_id (n : Nat) (ws : List Wire) (h : ∀ w ∈ ws, Wire.canonical n w) : migrateFresh n ws = ws := by
+  unfold migrateFresh
+  induction ws with
+  | nil => rfl
+  | cons w ws ih =>
+    have hw := h w List.mem_cons_self
+    rw [List.map_cons, encode_decodeInto_fresh w n hw.1 hw.2, ih (fun v hv => h v (List.mem_cons_of_mem _ hv))]
+
+example : migrateFresh 3 [[some 15, some 1, none], [some 16, none, some 3]] = [[some 15, some 1, none], [some 16, none, some 3]] :=
+  migrate_fresh_id 3 _ (by
+    intro w hw
+    simp only [List.mem_cons, List.mem_nil_iff, or_false] at hw
+    rcases hw with rfl | rfl <;> exact ⟨rfl, by decide⟩)
+
+/-- The loop as written (`x/lend/keeper/migrate.go:160,205`: ONE variable declared before the loop, `Unmarshal` does not reset it)
+is NOT the identity: a field omitted on the wire (default value) inherits the value of the previous record. Witness = lend pairs
+(id, inter-pool flag): pair 14 is an inter-pool pair, pair 15 is not — after the migration pair 15 is. Replayed on the real code:
+`migration_keeps:lend.LendPairKeyPrefix`, `migration_keeps:lend.AssetRatesParamsKeyPrefix` (first case of TestC20Migrations). -/
+theorem migrate_shared_counterexample :
+    migrateShared [0, 0] [[some 14, some 1], [some 15, none]] = [[some 14, some 1], [some 15, some 1]] ∧
+    migrateFresh 2 [[some 14, some 1], [some 15, none]] = [[some 14, some 1], [some 15, none]] ∧
+    Wire.canonical 2 [some 14, some 1] ∧ Wire.canonical 2 [some 15, none] := by
+  refine ⟨rfl, rfl, ⟨rfl, by decide⟩, ⟨rfl, by decide⟩⟩
+
+/-- … the strongest true statement about the loop as written: it keeps the records as long as every field of every record is
+present on the wire (no field has its default value) -/
+theorem migrate_shared_id_partial (n : Nat) (ws : List Wire) (acc : List Nat) (hacc : acc.length = n)
+    (h : ∀ w ∈ ws, Wire.canonical n w ∧ ∀ x ∈ w, x ≠ none) : migrateShared acc ws = ws := by
+  induction ws generalizing acc with
+  | nil => rfl
+  | cons w ws ih =>
+    obtain ⟨⟨hlen, hcan⟩, hfull⟩ := h w List.mem_cons_self
+    have hd : decodeInto acc w = decodeInto (List.replicate n 0) w := by
+      rw [decodeInto_full w acc (by rw [hacc, hlen]) hfull, decodeInto_full w _ (by simp [hlen]) hfull]
+    have hlen' : (decodeInto acc w).length = n := by
+      rw [decodeInto_full w acc (by rw [hacc, hlen]) hfull]; simp [hlen]
+    unfold migrateShared
+    rw [ih (decodeInto acc w) hlen' (fun v hv => h v (List.mem_cons_of_mem _ hv)), hd, encode_decodeInto_fresh w n hlen hcan]
+
+example : migrateShared [0, 0] [[some 14, some 1], [some 15, some 2]] = [[some 14, some 1], [some 15, some 2]] :=
+  migrate_shared_id_partial 2 _ _ rfl (by
+    intro w hw
+    simp only [List.mem_cons, List.mem_nil_iff, or_false] at hw
+    rcases hw with rfl | rfl <;> exact ⟨⟨rfl, by decide⟩, by decide⟩)
 
 end Comdex.C20
